@@ -97,7 +97,7 @@ def junk_frames(rng, valid):
 WANT = {}
 
 
-def build_history(rng, cfgf, peerf):
+def build_history(rng, cfgf, peerf, half=False):
     negotiated = cfgf & peerf
     hdr = bool(negotiated & connlib.DFLAG_DIST_HDR_ATOM_CACHE)
     frag_ok = hdr and bool(negotiated & connlib.DFLAG_FRAGMENTS)
@@ -135,6 +135,8 @@ def build_history(rng, cfgf, peerf):
                 want.append(("junk", 1, "truncated-hdr"))
             elif body[0] == 112:
                 j, n, kind = junk_frames(rng, body)
+                if half:
+                    n = 1        # the read-half path knows pass-through frames only: anything else is one error
                 stream += frame(j)
                 want.append(("junk", n, kind))
         if frag_ok and body[:2] == bytes([131, 68]) and rng.random() < 0.5:
@@ -190,10 +192,13 @@ def run(ctx):
     cases = []
     for k in range(ctx.budget(260, 6000)):
         cfgf, peerf = FLAGSETS[k % len(FLAGSETS)]
-        stream, want, has_frag = build_history(rng, cfgf, peerf)
+        # pass-through negotiations: a share of the histories is read through the connection's read half
+        # (receive_message_from_read_half, the node's receiver path)
+        half = not (cfgf & peerf & connlib.DFLAG_DIST_HDR_ATOM_CACHE) and rng.random() < 0.4
+        stream, want, has_frag = build_history(rng, cfgf, peerf, half)
         n_out = sum(1 if w[0] != "junk" else w[1] for w in want)
         chunks = connlib.chunked(rng, stream)
-        case = SEP.join(["conn %d %d 1" % (cfgf, peerf), "P " + ",".join(c.hex() for c in chunks) if stream else "X", "X"] + ["R"] * (n_out + 2))
+        case = SEP.join(["conn %d %d 1" % (cfgf, peerf), "P " + ",".join(c.hex() for c in chunks) if stream else "X", "X"] + ["H" if half else "R"] * (n_out + 2))
         WANT[case] = (want, has_frag)
         cases.append(case)
     # the frame that used to crash the task, followed by a message that must still arrive
@@ -204,9 +209,36 @@ def run(ctx):
     WANT[case] = ([("junk", 1, "fraghdr-cache-overrun"), ("msg", etf.denote(ctl), etf.denote(payload))], False)
     cases.append(case)
 
+    # receive_raw: the frames themselves, ticks included, whatever they contain
+    raw_cases, RAW = [], {}
+    for k in range(ctx.budget(30, 600)):
+        cfgf, peerf = FLAGSETS[k % len(FLAGSETS)]
+        frames = []
+        for _ in range(rng.choice([1, 2, 4, 7])):
+            r = rng.random()
+            frames.append(b"" if r < 0.2 else bytes(rng.randrange(256) for _ in range(rng.choice([1, 2, 5, 300, 70000]))) if r < 0.6
+                          else connlib.pass_through(*gen_message(rng), rng))
+        stream = b"".join(frame(f) for f in frames)
+        case = SEP.join(["conn %d %d 1" % (cfgf, peerf), "P " + ",".join(c.hex() for c in connlib.chunked(rng, stream)), "X"] + ["W"] * (len(frames) + 1))
+        RAW[case] = frames
+        raw_cases.append(case)
+
+    def raw_oracle(case, impl):
+        if impl.startswith(("PANIC", "CRASH", "TIMEOUT", "connect-err")):
+            return ("violation", "the receiving task did not survive: " + impl[:60])
+        outs = impl.split(SEP)[:-1]
+        want = ["raw " + (f.hex() if f else ".") for f in RAW[case]] + ["eof"]
+        if outs != want:
+            k = next((i for i, (a, b) in enumerate(zip(outs, want)) if a != b), min(len(outs), len(want)))
+            return ("violation", "receive_raw call %d does not return the frame the peer sent: %s" % (k, (outs[k] if k < len(outs) else "nothing")[:60]))
+        return None
+    ctx.diff_domain("conn", raw_cases, oracle=raw_oracle, nontrivial=lambda c, i: c if len(RAW[c]) >= 2 else None,
+                    classify=lambda c, i: ["api:receive_raw"] + ["frame:raw"] * len(RAW[c]))
+
     def classify(c, impl):
         want, has_frag = WANT[c]
-        out = ["negotiated:" + ("hdr+frag" if has_frag else "hdr" if int(c.split()[1]) & int(c.split()[2]) & 0x2000 else "pass-through")]
+        out = ["negotiated:" + ("hdr+frag" if has_frag else "hdr" if int(c.split()[1]) & int(c.split()[2]) & 0x2000 else "pass-through"),
+               "api:" + ("receive_message_from_read_half" if SEP + "H" in c else "receive_message")]
         for w in want:
             out.append("frame:" + (w[2] if w[0] == "junk" else "fragmented" if len(w) > 3 else "message"))
         return out
